@@ -83,6 +83,13 @@ def apply_faults(tokens, faults):
             toks.insert(i, (ch, "badchar", None))
         elif kind == "badunits":
             toks.insert(i, ("<m<s>", "badunits", None))
+        elif kind == "badword":
+            # the first bare word at or after i gets a comment delimiter glued to its
+            # end ('foo*/'): no dialect lets an unquoted lexeme contain one
+            for j in list(range(i, len(toks))) + list(range(0, i)):
+                if toks[j][1] == "word" and "/" not in toks[j][0]:
+                    toks[j] = (toks[j][0] + "*/", "badword", None)
+                    break
         elif kind == "unclose-quote":
             # a quoted string loses its closing quote and the text goes on; only when
             # that quote character does not occur anywhere later (then the string
@@ -137,6 +144,7 @@ def fault_strategy():
         st.tuples(st.just("unclose"), idx),
         st.tuples(st.just("unclose"), idx),
         st.tuples(st.just("unclose-quote"), idx),
+        st.tuples(st.just("badword"), idx),
     )
     return st.lists(one, min_size=1, max_size=3)
 
@@ -299,7 +307,7 @@ def single_faults(acc, d):
             faults += [("delete", i), ("dup", i), ("swap", i), ("truncate", i),
                        ("cut", i, 1), ("cut", i, 2), ("badchar", i, 0),
                        ("badchar", i, 1), ("badunits", i), ("unclose", i),
-                       ("unclose-quote", i)]
+                       ("unclose-quote", i), ("badword", i)]
             faults += [("replace", i, k) for k in range(len(PUNCT) + 4)]
         for f in faults:
             toks = apply_faults(base, [f])
